@@ -19,12 +19,13 @@ func init() {
 	eng.Register(&eng.Property{
 		ID:       "C44",
 		Title:    "Log output is one neutralized line per record",
-		Packages: []string{loggingPkg, terminalPkg},
+		Packages: []string{loggingPkg, terminalPkg, streamPkg},
 		Explanation: "(R1, sink discipline) every write to a Logger's underlying writer passes []byte(x) where x is DIRECTLY the result of terminal.NeutralizeControlCharacters — on every path, so a branch that bypasses the neutralizer is a violation; the writer field is otherwise only copied into new Logger values; the sinks live in Logger.write and the Writer callback only; " +
 			"(R2, one line) Logger.write: the message is cut at the first carriage return (message[:i]+\"...\\n\"), THEN — unconditionally, on the result — searched for a line feed; none → panic; a line feed before the last byte → cut there and re-terminated; the value formatted is that final φ, it is the last operand, and the constant format strings contain no control characters and end in its verb — hence exactly one '\\n', at the end, and no '\\r'; " +
 			"(R3, prefix) the other operands are the constant-layout timestamp, Level.abbreviation() (which returns only bytes of the printable constant table or '?') and the scope, which every Logger literal in the package takes from a name accepted by the anchored nameMatcher pattern whose alphabet has no control characters (or from the parent's scope joined with '.'); " +
 			"(R4, relayed lines) the Writer callback either logs the line through Logger.log (not a logger line), warns with a constant (bad level), drops it (level gate), or writes NeutralizeControlCharacters of line+\"\\n\" / Sprintf(\"%s[%s] %s\\n\", prefix, scope, rest) whose format has exactly one trailing newline and whose operands all derive from the line (which the line processor delivers without a newline — C47) or the scope; " +
 			"(R5, neutralizer table) the replacer maps at least ESC and CR, no replacement contains a control character, and NeutralizeControlCharacters returns the replacer's result for its argument. " +
+			"(R6) every callback invocation of stream.LineProcessor.Write passes the text before the FIRST newline of the remaining data (found by IndexByte, ≠ -1), so a relayed line cannot carry an embedded newline; " +
 			"Not decided: behaviour of fmt and strings.Replacer; C1 controls other than ESC.",
 		Assumptions: []string{"strings.Replacer replaces every occurrence", "the line processor delivers lines without '\\n' (C47)"},
 		Run:         runC44,
@@ -41,6 +42,7 @@ func isControlFree(s string) bool {
 }
 
 func runC44(c *eng.Ctx) {
+	c44LinesHaveNoNewline(c)
 	wfield, err := c.P.Field(loggingPkg, "Logger", "writer")
 	if err != nil {
 		c.Problem("R1", "%v", err)
